@@ -27,7 +27,8 @@ func init() {
 			"R1c the purge instant (time.Now) is read with the registry lock held; R6b the first token request of an acquisition always asks for required ∪ desired scope. " +
 			"R2b (shared with C09.R8) the containment test the cache lookup relies on is a subset test. " +
 			"R8 (shared with C11.R7) RoundTrip works on a deep copy (Request.Clone) of the caller's request: a token never lands in the caller's own header map, from where a re-sent request would carry it stale; R9 challenge parameters are stored under lower-cased names (they are looked up in lower case and auth-param names are case-insensitive). " +
-			"R10 (shared with C09.R2) Union, which computes the scope a token request carries, returns its receiver only when the merged value equals it, and otherwise the merged value.",
+			"R10 (shared with C09.R2) Union, which computes the scope a token request carries, returns its receiver only when the merged value equals it, and otherwise the merged value. " +
+			"R11 a loop in ociauth that deletes the element at its index does not continue with index+1 on that path (every cached token is examined by the expiry purge).",
 		NotDecided: "real-time expiry (that a token is unexpired when sent) and what the token server actually grants are not decided.",
 		Technique:  "static analysis: SSA dominance, phi-edge pairing of token and scope, reachability on the CFG, lockset dataflow",
 	})
@@ -184,6 +185,7 @@ func runC10(c *core.Ctx) {
 	challengeParamsKeyedLowerCase(c, "C10.R9")
 	// the union of what is held and what is asked for (what the token request carries) is computed correctly (shared with C09.R2)
 	relabel(c, "C10.R10", func() { c09Union(c) })
+	deletionLoopRevisitsIndex(c, "C10.R11", "ociauth")
 	if st := c.P.NamedType("ociauth", "stdTransport"); st != nil {
 		if rt := declaredMethod(c, types.NewPointer(st), "RoundTrip"); rt != nil {
 			requestUnmodified(c, rt, "C10.R8")
